@@ -625,6 +625,14 @@ def cfg(spec, consts, invs, sw=FIXED):
 ALLCLS = '{"eig", "amn", "mmn", "bkvec", "chk", "spn", "uhu", "uiu", "shu", "siu"}'
 
 
+def drop_dump(st):
+    """the state dump has been consumed; tlc.out stays as evidence"""
+    try:
+        os.remove(st["dump_path"])
+    except (OSError, KeyError, TypeError):
+        pass
+
+
 class Capped:
     """passes at most `cap` violations per key to the Report (so that every distinct key is written out), counts the rest"""
 
@@ -663,6 +671,7 @@ def check(pid, tier):
         fr.one(s)
         if fr.n <= 2:
             rep.sample(dict(cls=p[0], NK=p[1], NB=p[2], NW=p[3], NNB=p[4], partial_k=p[5]))
+    drop_dump(st)
     if fr.n != st["distinct"] or set(fr.count) != set(classes()):
         raise MachineryError(f"file-object dump incomplete: {fr.n} of {st['distinct']}, classes {sorted(fr.count)}")
     rep.part("replay_files", states=fr.n, per_class=fr.count, **fr.obs,
@@ -694,6 +703,7 @@ def check(pid, tier):
         states[ContReplay.hkey(s["hist"])] = s
         if len(s["hist"]) - 1 == maxlen:
             leaves.append(s)
+    drop_dump(stc)
     if len(states) != stc["distinct"]:
         raise MachineryError("container dump: behaviours are not distinct states")
     pool = collect_pool(states)
